@@ -155,12 +155,35 @@ fn check_mutated(input: &super::c01::Mutated, case: &mut Case) -> Result<(), Fai
 pub fn def() -> CheckDef {
     CheckDef {
         id: "C11",
-        rule: "parser-accepted byte strings from: (1) reference encodings of packets with arbitrary (foreign) compression, unknown types, empty RDATA, any 4-bit opcode, any response code (12-bit with EDNS), OPT at any additional index, stray OPT records in any section (also twice); (2) all 65536 header words on a valid compressed message; (3) the accepted part of mutated encodings. Oracle: parse -> build_bytes_vec / build_bytes_vec_compressed succeeds -> parse succeeds -> every observable field equal (id, flags, opcode(), rcode(), EDNS, sections, every record field). Non-trivial = accepted by the parser and >= 1 entry (mutated: >= 1 mutation)",
+        rule: "parser-accepted byte strings from: (1) reference encodings of packets with arbitrary (foreign) compression, unknown types, empty RDATA, any 4-bit opcode, any response code (12-bit with EDNS), OPT at any additional index, stray OPT records in any section (also twice); (1b) suffix-sharing messages with filler that puts names beyond offset 16383; (2) all 65536 header words on a valid compressed message; (3) the accepted part of mutated encodings. Oracle: parse -> build_bytes_vec / build_bytes_vec_compressed succeeds -> parse succeeds -> every observable field equal (id, flags, opcode(), rcode(), EDNS, sections, every record field). Non-trivial = accepted by the parser and >= 1 entry (mutated: >= 1 mutation)",
         assumptions: vec!["observation = public accessors + byte hooks; opcode()/rcode() compared as the caller sees them (unnamed values show as Reserved)"],
         sections: vec![
+            Box::new(ReplayOnly { name: "fuzz-bytes", check: check_raw }),
             Box::new(PropSection { name: "reference", rule: "reference encodings, foreign layouts", strategy, cases: (60_000, 2_000_000), check }),
+            Box::new(PropSection { name: "large", rule: "suffix-sharing messages crossing 16 KiB", strategy: large_strategy, cases: (20_000, 300_000), check: check_large }),
             Box::new(EnumSection { name: "words", rule: "all header words", enumerate: enum_words, check: check_word, exhaustive: true }),
             Box::new(PropSection { name: "mutated", rule: "accepted mutated encodings", strategy: super::c01::mutated_strategy, cases: (60_000, 2_000_000), check: check_mutated }),
         ],
     }
+}
+
+fn check_raw(b: &Bytes, case: &mut Case) -> Result<(), Fail> {
+    reserialise_oracle(b, case).map(|_| ())
+}
+
+/// large received messages (names beyond offset 16383) re-serialised
+fn check_large(input: &(gen::Sharing, Vec<u8>), case: &mut Case) -> Result<(), Fail> {
+    let p = input.0.assemble();
+    let opts = if input.1.is_empty() { EncOpts::plain() } else { EncOpts::foreign(input.1.clone()) };
+    let m = encode_message(&p, &opts);
+    if m.len() > 16384 {
+        case.class("over-16k");
+    }
+    let accepted = reserialise_oracle(&m, case)?;
+    case.nontrivial = accepted && m.len() > 16384;
+    Ok(())
+}
+
+fn large_strategy(t: Tier) -> BoxedStrategy<(gen::Sharing, Vec<u8>)> {
+    (gen::sharing(t), vec(any::<u8>(), 0..4)).boxed()
 }
